@@ -1,0 +1,43 @@
+//go:build verif
+
+package kv
+
+import "github.com/pkg/errors"
+
+// VerifCompact runs a manual compaction of the whole key space of a Pebble-backed KV
+// (verification harness, C11: lookups must be coherent before and after compactions).
+func VerifCompact(k KV) error {
+	p, ok := k.(*Pebble)
+	if !ok {
+		return errors.New("not a Pebble KV")
+	}
+	it, err := p.db.NewIter(nil)
+	if err != nil {
+		return err
+	}
+	if !it.First() {
+		return it.Close()
+	}
+	first := append([]byte(nil), it.Key()...)
+	it.Last()
+	// any key strictly above the last one: ImmediateSuccessor of the comparer
+	end := OxiaSlashSpanComparer.ImmediateSuccessor(nil, it.Key())
+	if err := it.Close(); err != nil {
+		return err
+	}
+	return p.db.Compact(first, end, false)
+}
+
+// VerifLevelFiles reports the number of sstables per LSM level (evidence that data really left the memtable).
+func VerifLevelFiles(k KV) []int64 {
+	p, ok := k.(*Pebble)
+	if !ok {
+		return nil
+	}
+	m := p.db.Metrics()
+	res := make([]int64, len(m.Levels))
+	for i := range m.Levels {
+		res[i] = m.Levels[i].NumFiles
+	}
+	return res
+}
